@@ -48,6 +48,26 @@ Fixpoint mirrors_b (t : htree) (d : dnode) : bool :=
   | _, _ => false
   end.
 
+(* The property fixes how clusters are NESTED, not the order of the statements inside a cluster: the drawing is judged
+   up to the order of siblings (the body of a cluster is some permutation of the drawings of the children). *)
+Inductive MirrorsP : htree -> dnode -> Prop :=
+| MPLeaf i s : ns_id s = ni_idx i -> MirrorsP (HNode i []) (DLeaf s)
+| MPCluster i ch id body body' s col :
+    ch <> [] -> id = ni_idx i -> ns_id s = ni_idx i -> Permutation body body' -> Forall2 MirrorsP ch body' ->
+    MirrorsP (HNode i ch) (DCluster id body s col).
+Fixpoint mirrors_perm_b (t : htree) (d : dnode) : bool :=
+  match t, d with
+  | HNode i [], DLeaf s => Z.eqb (ns_id s) (ni_idx i)
+  | HNode i (c0 :: cr), DCluster id body s _ =>
+      Z.eqb id (ni_idx i) && Z.eqb (ns_id s) (ni_idx i) &&
+      (fix go (x : list htree) (y : list dnode) : bool :=
+         match x with
+         | [] => match y with [] => true | _ => false end
+         | p :: r => match take1 (mirrors_perm_b p) y with Some y' => go r y' | None => false end
+         end) (c0 :: cr) body
+  | _, _ => false
+  end.
+
 (* -- one edge statement per link, right endpoints, value edges labelled by their type -- *)
 Definition edge_of_link (l : link) : Z * Z * Z * Z * str :=
   (l_src l, l_soff l, l_dst l, l_doff l, match l_kind l with KValue s => s | _ => [] end).
@@ -64,7 +84,7 @@ Definition edges_once_b (h : hview) (d : dot) : bool :=
   perm_eqb edge_eqb (map edge_of_stmt (d_edges d)) (map edge_of_link (hv_links h)).
 
 Definition spec_b (c : config) (h : hview) (d : dot) : bool :=
-  nodes_once_b h d && stmts_carry_b c h d && mirrors_b (hv_tree h) (d_top d) && edges_once_b h d.
+  nodes_once_b h d && stmts_carry_b c h d && mirrors_perm_b (hv_tree h) (d_top d) && edges_once_b h d.
 
 (* -- configuration independence: dropping colours, and names when qualification differs -- *)
 Definition erase_stmt (names : bool) (s : nstmt) : nstmt :=
